@@ -120,8 +120,11 @@ def deque_truthy(path, q):
 
 
 def deque_ctor(ex, path, ca, node):
-    if ca.pos or ca.kw:
+    if ca.pos or set(ca.kw) - {"maxlen"}:
         raise Unsupported("deque(iterable)")
+    if "maxlen" in ca.kw and not isinstance(ca.kw["maxlen"], NoneV):
+        # the model (append never drops anything) is the model of an UNBOUNDED deque: that is its precondition
+        ex.run.oblige(path, "builtin", f"deque-is-unbounded(maxlen=None)@{getattr(node, 'lineno', 0)}", z3.BoolVal(False))
     q = path.alloc("deque[Val]", "dq")
     path.store("deque.head", q.e, z3.IntVal(0))
     path.store("deque.tail", q.e, z3.IntVal(0))
